@@ -333,6 +333,29 @@ def main():
 ''')
 
 
+P('attr_names', '''
+DATA = {}
+class A:
+    def __init__(self):
+        self._Active = 1        # starts with '_' + class name, but is not a private (mangled) name
+        self._A = 2
+        self.__secret = 3       # stored as _A__secret
+        self._A_single = 4
+class Cache:
+    def __init__(self):
+        self._Cache_size = 5
+        self._size = 6
+        self.__hits = 7
+def main():
+    a = A()
+    c = Cache()
+    n = a._Active + c._size
+    DATA['n'] = n
+    out('attr_names', n)
+    return n
+''')
+
+
 P('observed_access', '''
 DATA = {}
 class AuditedSettings(dict):
